@@ -249,6 +249,20 @@ impl RunCtx {
         g.add(d.group_width as u64);
         g.add(d.growth_left as u64);
         let n = if d.is_empty_singleton { 0 } else { d.bucket_mask + 1 };
+        if n > 0 {
+            // boundary occupancy: the first / last bucket holds an element; a run of non-EMPTY control bytes
+            // crosses the end of the table (probe windows and the tombstone decision of erase wrap around there)
+            let mut s = sim();
+            if d.ctrl[0] & 0x80 == 0 {
+                s.probe(Probe::FirstBucketFull);
+            }
+            if d.ctrl[n - 1] & 0x80 == 0 {
+                s.probe(Probe::LastBucketFull);
+            }
+            if d.ctrl[0] != 0xFF && d.ctrl[n - 1] != 0xFF && n >= d.group_width {
+                s.probe(Probe::ProbeWrap);
+            }
+        }
         let mut acc = 0u64;
         for (i, &c) in d.ctrl[..n].iter().enumerate() {
             let code = if c == 0xFF { 0 } else if c == 0x80 { 1 } else { 2 };
